@@ -11,6 +11,7 @@ import (
 	"testing"
 
 	"verif/harness/kit"
+	"verif/harness/ref"
 
 	"pgregory.net/rapid"
 )
@@ -21,7 +22,10 @@ type c19Case struct {
 	Names   []kit.Hex `json:"announced_names"`
 	Upload  []int     `json:"upload_mode"` // per file: 0 complete, 1 partial, 2 nothing
 	Dialect int       `json:"dialect"`
+	End     string    `json:"session_end"` // eof | garbage_frame | unknown_command | bad_checksum (the last three end the session as a failure)
 }
+
+const c19Phone = "13800138000"
 
 var (
 	sandboxRoot string
@@ -84,7 +88,10 @@ func genHostileName(t *rapid.T, used map[string]bool) []byte {
 			sb.WriteString(rapid.StringMatching(`[a-z0-9_]{1,12}\.(jpg|mp4|bin)`).Draw(t, "friendly"))
 		case 1: // known escapes
 			sb.WriteString(rapid.SampledFrom([]string{"../x", "../decoy", "../../x", "../../etc/passwd", "/x", "..", ".", "../", "other/decoy", "./../x", "a/../../x",
-				"..//x", "/../x", "../work/x", "../../work/work/x", "x/", "a/b/c/d"}).Draw(t, "escape"))
+				"..//x", "/../x", "../work/x", "../../work/work/x", "x/", "a/b/c/d",
+				// names that climb out and re-enter a path that merely starts with the terminal's own phone number
+				"../" + c19Phone + "-old/f.bin", "../" + c19Phone + ".bin", "../" + c19Phone + "9/x", "../" + c19Phone + "/../x", "../../work/" + c19Phone + "x",
+				"../" + c19Phone + "_evil"}).Draw(t, "escape"))
 		default:
 			n := rapid.IntRange(1, 8).Draw(t, "frags")
 			for i := 0; i < n; i++ {
@@ -107,7 +114,7 @@ func genHostileName(t *rapid.T, used map[string]bool) []byte {
 }
 
 func genC19(t *rapid.T) c19Case {
-	c := c19Case{Dialect: rapid.IntRange(1, 5).Draw(t, "dialect")}
+	c := c19Case{Dialect: rapid.IntRange(1, 5).Draw(t, "dialect"), End: rapid.SampledFrom([]string{"eof", "eof", "garbage_frame", "unknown_command", "bad_checksum"}).Draw(t, "end")}
 	n := rapid.IntRange(1, 4).Draw(t, "n")
 	used := map[string]bool{}
 	for i := 0; i < n; i++ {
@@ -157,6 +164,20 @@ func checkC19(c c19Case, _ *kit.Collector) kit.Result {
 			nControl++
 		}
 	}
+	// how the session ends: a clean EOF, or something that makes the connection loop quit with a failure
+	switch c.End {
+	case "garbage_frame":
+		stream = append(stream, 0x7e, 0x01, 0x02, 0x7e)
+		cuts = append(cuts, len(stream))
+	case "unknown_command":
+		stream = append(stream, ref.Spec{ID: 0x0002, PhoneBCD: phoneFor(false), Serial: 999}.Build()...)
+		cuts = append(cuts, len(stream))
+	case "bad_checksum":
+		f := ref.Spec{ID: 0x1211, PhoneBCD: phoneFor(false), Serial: 998, Body: ref.Body1211([]byte("zz"), 0, 1)}.Build()
+		f[len(f)-2] ^= 0x01
+		stream = append(stream, f...)
+		cuts = append(cuts, len(stream))
+	}
 	r := runStream(c.Dialect, stream, cuts, 0, nControl, true)
 	escaping := false
 	for _, n := range c.Names {
@@ -164,7 +185,7 @@ func checkC19(c c19Case, _ *kit.Collector) kit.Result {
 			escaping = true
 		}
 	}
-	res.Labels = []string{fmt.Sprintf("dialect%d", c.Dialect)}
+	res.Labels = []string{fmt.Sprintf("dialect%d", c.Dialect), "end_" + c.End}
 	if escaping {
 		res.Labels = append(res.Labels, "name_with_separator_or_dotdot")
 	}
@@ -174,7 +195,7 @@ func checkC19(c c19Case, _ *kit.Collector) kit.Result {
 		return res
 	}
 	// walk the sandbox: everything new or modified must lie under work/<phone>/ (file.log excepted)
-	phone := "13800138000"
+	phone := c19Phone
 	allowedDir := filepath.Join(sandboxRoot, "work", phone)
 	var bad []string
 	created := 0
